@@ -367,6 +367,17 @@ Plan make_plan(const Profile &prof, uint64_t seed) {
     }
   }
   p.compare_canonical = ntasks > 1 ? 1 : 0;
+  if (pf == PROF_CONC && ntasks > 1) {
+    // hot start: several tasks query isZero of the same shared splines first,
+    // so that the function-local static is initialised under contention
+    if (r.below(3) == 0)
+      for (int t = 0; t < ntasks; t++) {
+        uint32_t which = NP + r.below(2);
+        p.progs[t].insert(p.progs[t].begin(), mk(OP_P_ISZERO, which));
+        if (r.below(2)) p.progs[t].insert(p.progs[t].begin() + 1, mk(OP_P_ISZERO, NP + r.below(NP)));
+      }
+    if (r.below(8) == 0) p.static_init_throw = 1 + (int)r.below(3);
+  }
   // ---- sweeps: history profiles, sequential worlds mostly
   if ((pf == PROF_HIST || pf == PROF_ARITH || pf == PROF_XGRID) && prof.check != "C18") {
     uint32_t pct = (prof.check == "C10" || prof.check == "C14") ? 60 : prof.check == "C09" ? 40 : 15;
